@@ -169,7 +169,57 @@ func ModelTextprotoNewConn(conn io.ReadWriteCloser) *textproto.Conn {
 	sc := conn.(*ScriptConn)
 	connOfReader[&tc.Reader] = sc
 	connOfWriter[&tc.Writer] = sc
+	// the exported bufio.Reader under the textproto reader (code that reads lines through it
+	// directly gets the bufio model below)
+	br := &bufio.Reader{}
+	connOfBufio[br] = sc
+	tc.Reader.R = br
 	return tc
+}
+
+// pendingLine holds the rest of a scripted line that bufio.Reader.ReadLine returned only a prefix of.
+var pendingLine = map[*ScriptConn]string{}
+
+// ModelBufioReadLine models (*bufio.Reader).ReadLine over a scripted connection: at most 4096
+// bytes (the default buffer) per call, isPrefix set while the line continues; a line cut by a
+// disconnect is returned without error, the next call reports io.EOF.
+func ModelBufioReadLine(r *bufio.Reader) ([]byte, bool, error) {
+	c := connOfBufio[r]
+	if c == nil {
+		Unreachable("bufio.Reader that does not wrap a scripted connection")
+		return nil, false, io.EOF
+	}
+	if rest := pendingLine[c]; rest != "" {
+		if len(rest) > 4096 {
+			pendingLine[c] = rest[4096:]
+			return []byte(rest[:4096]), true, nil
+		}
+		pendingLine[c] = ""
+		return []byte(rest), false, nil
+	}
+	if c.eofNext {
+		return nil, false, io.EOF
+	}
+	st := c.Next()
+	switch st.Kind {
+	case StepLine:
+		if st.Cut {
+			c.eofNext = true
+			if len(st.Text) == 0 {
+				return nil, false, io.EOF
+			}
+		}
+		if len(st.Text) > 4096 {
+			pendingLine[c] = st.Text[4096:]
+			return []byte(st.Text[:4096]), true, nil
+		}
+		return []byte(st.Text), false, nil
+	case StepEOF:
+		c.eofNext = true
+		return nil, false, io.EOF
+	}
+	c.eofNext = true
+	return nil, false, &scriptNetErr{timeout: st.Cut}
 }
 
 // ModelTextprotoReadLine models (*textproto.Reader).ReadLine: the next scripted line; a line cut
